@@ -258,6 +258,21 @@ func runC20(p *engine.Prog, r *engine.Report) {
 						probs = append(probs, "the re-enqueued value "+fi.T(in.X).S+" is not the target that was probed")
 					}
 				}
+				// the goroutine outlives the iteration that created it: a captured variable that later iterations
+				// assign again would make it re-enqueue whatever the worker handled last
+				if lp := loopOf(pfi, fi.MC.Block()); lp != nil {
+					for _, b := range fi.MC.Bindings {
+						al, ok := b.(*ssa.Alloc)
+						if !ok || lp.blocks[al.Block().Index] {
+							continue
+						}
+						for _, rr := range *al.Referrers() {
+							if st, ok := rr.(*ssa.Store); ok && st.Addr == ssa.Value(al) && lp.blocks[st.Block().Index] {
+								probs = append(probs, "the retry goroutine captures variable "+al.Comment+", which is declared outside the worker loop and assigned again by later iterations (at "+p.Rel(st.Pos())+"): after the sleep it holds another target")
+							}
+						}
+					}
+				}
 				isGo := false
 				for _, rr := range *fi.MC.Referrers() {
 					if _, ok := rr.(*ssa.Go); ok {
